@@ -155,6 +155,78 @@ def single_item(e):
     return None
 
 
+def rebinds_local(fa, st):
+    """Was the augmented assignment `st` (on a plain local) written `x = x <op> e` in the source?  The canonical form
+    turns that spelling into `x <op>= e`, but for a list / set the two differ: `x |= e` grows the object `x` names —
+    the caller's own set, when `x` is an alias of it — while `x = x | e` builds a new object and only rebinds the
+    local.  Decided on the syntax tree of the module as written (same position, an Assign there)."""
+    if not (isinstance(st, ast.AugAssign) and isinstance(st.target, ast.Name) and hasattr(st, "lineno")):
+        return False
+    mod = fa.fi.module
+    idx = mod.__dict__.get("_raw_assign_index")
+    if idx is None:
+        idx = {}
+        try:
+            for n in ast.walk(ast.parse(mod.source)):
+                if isinstance(n, (ast.Assign, ast.AugAssign)):
+                    idx.setdefault((n.lineno, n.col_offset), n)
+        except SyntaxError:
+            pass
+        mod.__dict__["_raw_assign_index"] = idx
+    raw = idx.get((st.lineno, st.col_offset))
+    return isinstance(raw, ast.Assign) and len(raw.targets) == 1 and isinstance(raw.targets[0], ast.Name) and raw.targets[0].id == st.target.id
+
+
+def unwrap_copy(e):
+    """X for a plain copy of a collection: list(X), set(X), tuple(X), frozenset(X), sorted(X), X.copy()."""
+    while True:
+        if isinstance(e, ast.Call) and isinstance(e.func, ast.Name) and e.func.id in ("list", "set", "tuple", "frozenset", "sorted") and len(e.args) == 1 \
+                and not e.keywords and not isinstance(e.args[0], ast.Starred):
+            e = e.args[0]
+        elif isinstance(e, ast.Call) and isinstance(e.func, ast.Attribute) and e.func.attr == "copy" and not e.args and not e.keywords:
+            e = e.func.value
+        else:
+            return e
+
+
+def choose(fa, e, at, atom, _depth=0):
+    """(expression, node) that `e` denotes at `at` when the atomic tests have the values `atom` gives them: locals bound
+    once are followed, a conditional expression is resolved to the arm its test selects."""
+    while _depth < 12:
+        _depth += 1
+        if isinstance(e, ast.IfExp):
+            v = eval3(fa, e.test, at, atom)
+            if v is None:
+                return e, at
+            e = e.body if v else e.orelse
+            continue
+        if isinstance(e, ast.Name):
+            e2, at2 = bound_value(fa, e, at, depth=1)
+            if e2 is e:
+                return e, at
+            e, at = e2, at2
+            continue
+        break
+    return e, at
+
+
+def presence_atom(is_it, val):
+    """Atom: tests of the object `is_it(expr, node)` recognises — truthiness, `is None`, `is not None` — say it is
+    present (val=True) / absent (val=False)."""
+    def f(t, n):
+        nt = none_test(t)
+        x, v = (nt[0], (not nt[1]) == val) if nt is not None else (t, val)
+        if isinstance(x, ast.NamedExpr):
+            x = x.value
+        try:
+            if isinstance(x, (ast.Name, ast.Attribute, ast.Call)) and is_it(x, n):
+                return v
+        except AnalysisError:
+            pass
+        return None
+    return f
+
+
 class Push:
     """One place that puts exactly one more element at the end of a list: `r.append(x)`, `r += [x]`, `r.extend([x])`,
     `r.insert(len(r), x)`.  node = the call / the augmented assignment (what obligations are keyed on and where the
@@ -180,7 +252,7 @@ def pushes(fa, name=None):
                 and c.args[0].func.id == "len" and len(c.args[0].args) == 1 and A.norm(c.args[0].args[0]) == A.norm(f.value):
             out.append(Push(c, f.value, c.args[1]))
     for st in fa.stmts(ast.AugAssign):
-        if isinstance(st.op, ast.Add) and single_item(st.value) is not None:
+        if isinstance(st.op, ast.Add) and single_item(st.value) is not None and not rebinds_local(fa, st):
             out.append(Push(st, st.target, single_item(st.value)))
     if name is not None:
         out = [p for p in out if A.dotted(p.recv) == name]
@@ -860,6 +932,40 @@ def _nf_lambdas(node):
                         blk.append(ast.copy_location(ast.Pass(), s_))
                     changed = any_change = True
                     break
+            if changed:
+                break
+        if changed:
+            continue
+        # name = (lambda ...) if C else (lambda ...): each call statement becomes the if statement it stands for
+        for blk in _blocks_of(node):
+            for s_ in list(blk):
+                if not (isinstance(s_, ast.Assign) and len(s_.targets) == 1 and isinstance(s_.targets[0], ast.Name) and isinstance(s_.value, ast.IfExp)
+                        and isinstance(s_.value.body, ast.Lambda) and isinstance(s_.value.orelse, ast.Lambda) and st.get(s_.targets[0].id, 0) == 1):
+                    continue
+                nm = s_.targets[0].id
+                mentions = [n for n in ast.walk(node) if isinstance(n, ast.Name) and n.id == nm and n is not s_.targets[0]]
+                calls = [c for c in ast.walk(node) if isinstance(c, ast.Call) and isinstance(c.func, ast.Name) and c.func.id == nm]
+                homes = [next(((bl, x) for bl in _blocks_of(node) for x in bl if _simple_holder(x) and x.value is c), None) for c in calls]
+                if not mentions or len(mentions) != len(calls) or any(h is None for h in homes):
+                    continue
+                arms = [(_apply_lambda(s_.value.body, c), _apply_lambda(s_.value.orelse, c)) for c in calls]
+                if any(a is None or b is None for (a, b) in arms):
+                    continue
+                cond = s_.value.test
+                if isinstance(cond, ast.Name) and st.get(cond.id, 0) <= 1:
+                    blk.remove(s_)
+                    if not blk:
+                        blk.append(ast.copy_location(ast.Pass(), s_))
+                else:
+                    tmp = "chosen__%s" % nm
+                    blk[blk.index(s_)] = ast.copy_location(ast.Assign(targets=[ast.Name(id=tmp, ctx=ast.Store())], value=cond), s_)
+                    cond = ast.Name(id=tmp, ctx=ast.Load())
+                for (c, (bl, holder), (a, b)) in zip(calls, homes, arms):
+                    h1, h2 = copy.deepcopy(holder), copy.deepcopy(holder)
+                    h1.value, h2.value = a, b
+                    bl[bl.index(holder)] = ast.copy_location(ast.If(test=copy.deepcopy(cond), body=[h1], orelse=[h2]), holder)
+                changed = any_change = True
+                break
             if changed:
                 break
         if changed:
@@ -1545,13 +1651,14 @@ def eval3(fa, t, n, atom, _depth=0):
     return None
 
 
-def under(fa, atom):
+def under(fa, atom, follow_exc=False):
     """edge_ok predicate: only the branch edges that can be taken when the atomic tests have the values `atom` gives
-    them.  Exception edges out of anything but a `raise` statement are not followed (the scan itself does not fail)."""
+    them.  Unless `follow_exc`, exception edges out of anything but a `raise` statement are not followed (a scan
+    itself does not fail)."""
     def ok(s, d, l):
         nd = fa.cfg.node(s)
         if l == "exc":
-            return isinstance(nd.ast, ast.Raise)
+            return follow_exc or isinstance(nd.ast, ast.Raise)
         if l == "T" and nd.kind == "for" and isinstance(nd.ast.iter, ast.IfExp):
             # `for x in (xs if flag else ())`: with the empty alternative selected the body does not run
             taken = eval3(fa, nd.ast.iter.test, s, atom)
